@@ -554,7 +554,14 @@ def g_new(S, dst=None, allow_bad=True):
     else:               # columns= restriction of a dict, [None] fill, or columns alone
         want = S.names(rng.choice([1, 2, 3]))
         q = rng.random()
-        if q < 0.3:
+        if q < 0.08:
+            # ONE column name given as a string, no data: dictable([], 'ab') / dictable(None, 'ab') is the table with the column 'ab' and no row
+            # (review 4 v1-C: the name was iterated into its characters)
+            nm = rng.choice(['ab', 'xyz', 'a', 'data'])
+            S.emit('(tbl new h%d %s %s (D))', dst, rng.choice(['N', '(L)']), enc(nm))
+            S.bind(dst, [nm], 0)
+            S.tags.add('new-one-string-column')
+        elif q < 0.3:
             S.emit('(tbl new h%d N %s (D))', dst, enc(want))
             S.bind(dst, want, 0)
         elif q < 0.55:      # records with columns=: the records restricted to these columns, None where a record lacks one
@@ -569,11 +576,25 @@ def g_new(S, dst=None, allow_bad=True):
             if not cols:
                 cols = S.names(2)
             d = {c: S.column(n) for c in cols}
-            kept = [len(d[c]) for c in want if c in d] + [1 for c in want if c not in d]
+            if rng.random() < 0.3:
+                # an INT among the names asked for: the column str(int) (`str(key) if is_int(key)`), whether the data spells it '1' or not at all
+                # (review 4 v1-C: since 89e0380 dictable({'1':[1,2]}, columns=[1]) was {'1':[None]})
+                k = rng.choice([1, 2])
+                if rng.random() < 0.7:
+                    d = dict(list(d.items())[:-1] + [(str(k), S.column(n))])
+                want = [w for w in want if w != str(k)]
+                want.insert(rng.randrange(len(want) + 1), k)
+                S.tags.add('new-columns-int-name')
+            names = [str(w) if isinstance(w, int) else w for w in want]
+            kept = [len(d[c]) for c in names if c in d] + [1 for c in names if c not in d]
             ls = set(kept) - {1}
             m = list(ls)[0] if ls else 1
-            S.emit('(tbl new h%d %s %s (D))', dst, kv(d), enc(want))
-            S.bind(dst, want, m)
+            if rng.random() < 0.3 and not any(tagged(c) for c in d):
+                S.emit('(tbl new h%d N %s %s)', dst, enc(want), kv(d))      # the columns as KEYWORDS, restricted by columns=
+                S.tags.add('new-keywords-columns')
+            else:
+                S.emit('(tbl new h%d %s %s (D))', dst, kv(d), enc(want))
+            S.bind(dst, names, m)
             S.tags.add('new-columns-restriction')
 
 
